@@ -368,6 +368,26 @@ def _td_loops(ck, repo, nf):
     ck.floor("td-loops", n_loops, 4)
 
 
+def _record_as_tuple(nf, p):
+    """(tuple reading, field names) of a plain record construction (NamedTuple / dataclass): the constructor arguments in field order;
+    (p, None) for anything else."""
+    if p.elems is not None:
+        return p, None
+    a = p.single_atom()
+    m = nf.meta.get(a or "")
+    if not m or not m.get("record"):
+        return p, None
+    try:
+        fields = NF._record_fields(nf.repo.lookup(m["fn"])[1])
+    except Exception:
+        return p, None
+    if not fields or set(fields) != set(m["record"]):
+        return p, None
+    q_ = Poly.atom(a, nf.atom_deps(a), nf.atom_gdeps(a))
+    q_.elems = [m["record"][f_] for f_ in fields]
+    return q_, list(fields)
+
+
 # ---- Monte-Carlo control -------------------------------------------------------------------------------------------------------------
 def _monte_carlo(ck, repo, nf):
     """The backward pass is read by roles, not by position or spelling: the loop-state component initialised with the table parameter is
@@ -402,11 +422,16 @@ def _monte_carlo(ck, repo, nf):
     env = {i: Poly.atom(i, {i}, {i}), st: Poly.atom(st, {st}, {st})}
     # closure variables of the loop body: single top-level assignments of the enclosing function (ep_len = rewards.shape[0], ...)
     env.update({k_: v_ for k_, v_ in closure_env(nf, fn, body, mi, penv, q).items() if k_ not in env})
+    init, carrier = _record_as_tuple(nf, nf.poly(bound["init_val"], osc, node.id))
+    if carrier:
+        # the loop state is a plain record (NamedTuple): its fields are the components of the state in field order
+        nf.meta[st] = {"deps": frozenset([st]), "gdeps": frozenset([st]), "fn": "", "args": [], "kws": {},
+                       "record": {f_: nf.poly(parse_expr(f"{st}[{k_}]"), Scope(None, mi, env, q), None) for k_, f_ in enumerate(carrier)}}
     sc = Scope(cfg, mi, env, q + ".<locals>." + body.name)
     rets = [n for n in cfg.nodes if n.kind == "stmt" and isinstance(n.ast, ast.Return)]
     ck.need(len(rets) == 1, f"{q}: body has {len(rets)} returns (unrecognised form)")
-    rp = nf.poly(rets[0].ast.value, sc, rets[0].id)
-    init = nf.poly(bound["init_val"], osc, node.id)
+    rp, carrier2 = _record_as_tuple(nf, nf.poly(rets[0].ast.value, sc, rets[0].id))
+    ck.need(carrier == carrier2, f"{q}: the loop body returns another kind of state than the loop is started with (unrecognised form)")
     ck.need(rp.elems is not None and init.elems is not None and len(rp.elems) == len(init.elems), f"{q}: loop state is not a tuple display of one length in the body and at the call (unrecognised form)")
     lo, hi = nf.poly(bound["lower"], osc, node.id), nf.poly(bound["upper"], osc, node.id)
     ssc = Scope(None, mi, env, q)
